@@ -471,6 +471,13 @@ impl ObjectDesc {
         compute_md5: bool,
         config: TransferConfig,
     ) -> Result<Box<ObjectDesc>> {
+        if config.cenc != lct::Cenc::Null {
+            // The stream is sent as it is read: it would be announced compressed and sent uncompressed
+            return Err(FluteError::new(
+                "Compressed object is not compatible with a stream",
+            ));
+        }
+
         let md5 = match compute_md5 {
             true => Some(stream.md5_base64()?),
             false => None,
